@@ -22,6 +22,8 @@ class JaxModel:
         self.concrete = []  # (kind, x) for calls made with concrete arrays, in order
         self.n_traced = {"like": 0, "prior": 0}
         self.n_points = {"like": 0, "prior": 0}
+        self.n_concrete_like_calls = 0
+        self.crash_at_concrete_like = None  # crash seam: raise at this (0-based) eager likelihood call
 
     def _note(self, kind, x):
         import jax
@@ -30,6 +32,13 @@ class JaxModel:
             self.n_traced[kind] += 1
         else:
             a = np.asarray(x, dtype=np.float64)
+            if kind == "like":
+                k = self.n_concrete_like_calls
+                self.n_concrete_like_calls += 1
+                if self.crash_at_concrete_like is not None and k == self.crash_at_concrete_like:
+                    from .core import SimModelError
+
+                    raise SimModelError(f"simulated model failure at eager likelihood call {k}")
             self.concrete.append((kind, a.reshape(-1, self.t.dims)))
             self.n_points[kind] += len(a.reshape(-1, self.t.dims))
 
